@@ -6,6 +6,7 @@ CONSTANTS
   AsIsDeviation = FALSE
   EnablePrune = TRUE
   EnableForeign = FALSE
+  SlowThr = 1000000
   D = 14
 INIT GInit2
 NEXT GNext
